@@ -1,11 +1,12 @@
 """C02  A granted placement has exactly the requested shape  (DESIGN 5 / C02)"""
 
 import ast
+import re
 
 from ..model import (walk, dotted, call_name, kwarg, unparse, short, UNKNOWN,
                      root_name, AnalysisError, calls_in, stores_in_target)
 from ..cfg import cfg_of
-from ..flow import Deps, guards, must_pass, loop_slice
+from ..flow import Deps, guards, must_pass, loop_slice, reaching_defs
 from .. import idioms as I
 from .c01 import (sched_classes, find_resources_info, pick_sites, BASE, CONT,
                   JSRUN, _ancestors)
@@ -209,21 +210,6 @@ def sched_info(prog, K):
         raise AnalysisError('%s.schedule_task missing' % K.name)
     g = cfg_of(f)
     smap = I.stmt_node_map(g)
-    # rem -= len(X) ; alc.extend(X)
-    rem = alc = X = None
-    dec = ext = None
-    for n in walk(f.node):
-        if isinstance(n, ast.AugAssign) and isinstance(n.op, ast.Sub) and \
-                isinstance(n.target, ast.Name) and _len_of(n.value):
-            rem, X, dec = n.target.id, _len_of(n.value), n
-    if rem is None:
-        raise AnalysisError('UNRECOGNISED-IDIOM %s: no `rem -= len(found)`'
-                            % f.where)
-    for c in calls_in(f.node):
-        if isinstance(c.func, ast.Attribute) and c.func.attr == 'extend' and \
-                c.args and unparse(c.args[0]) == X and \
-                isinstance(c.func.value, ast.Name):
-            alc, ext = c.func.value.id, c
     find_call = None
     for c in calls_in(f.node):
         if call_name(c) == 'self._find_resources':
@@ -231,7 +217,115 @@ def sched_info(prog, K):
     if find_call is None:
         raise AnalysisError('UNRECOGNISED-IDIOM %s: no call of '
                             'self._find_resources' % f.where)
+    F = smap[id(find_call)]
+    if not F.loops:
+        raise AnalysisError('UNRECOGNISED-IDIOM %s: the per-node search is '
+                            'not in a loop' % f.where)
+
+    def in_loop(stmt):
+        n = smap.get(id(stmt))
+        return n is not None and n.loops[:len(F.loops)] == F.loops
+
+    # the decrement of the remaining counter: `rem -= <amount>` (or
+    # `rem = rem - <amount>`) in the node loop - whatever the amount is
+    decs = []
+    for n in walk(f.node):
+        if _decrement(n) and in_loop(n):
+            decs.append(n)
+    names = {_decrement(n)[0] for n in decs}
+    if len(names) != 1 or len(decs) != 1:
+        raise AnalysisError('UNRECOGNISED-IDIOM %s: expected one `rem -= '
+                            '<amount>` in the node loop, found %d on %s'
+                            % (f.where, len(decs), sorted(names)))
+    dec = decs[0]
+    rem = _decrement(dec)[0]
+    # the collection of what was found: `alc.extend(X)` / `alc += X` in the
+    # node loop
+    cols = []
+    for n in walk(f.node):
+        c = _collect(n)
+        if c and in_loop(n):
+            cols.append((c[0], c[1], n))
+    if len(cols) > 1:
+        # keep the one whose receiver is returned
+        returned = set()
+        for n in walk(f.node):
+            if isinstance(n, ast.Return) and n.value is not None:
+                returned |= {x.id for x in walk(n.value)
+                             if isinstance(x, ast.Name)}
+        cols = [c for c in cols if c[0] in returned]
+        if len(cols) != 1:
+            raise AnalysisError('UNRECOGNISED-IDIOM %s: several lists are '
+                                'extended in the node loop' % f.where)
+    alc = X = ext = None
+    if cols:
+        alc, arg, ext = cols[0]
+        if not isinstance(arg, ast.Name):
+            raise AnalysisError('UNRECOGNISED-IDIOM %s: `%s` is extended by '
+                                'an expression, not by a named list'
+                                % (f.where, alc))
+        X = arg.id
+    else:
+        la = _len_of(_decrement(dec)[1])
+        X = la if la is not None else unparse(_decrement(dec)[1])
     return f, g, smap, rem, alc, X, dec, ext, find_call
+
+
+def _decrement(n):
+    """(name, amount expr) of `name -= amount` / `name = name - amount`"""
+    if isinstance(n, ast.AugAssign) and isinstance(n.op, ast.Sub) and \
+            isinstance(n.target, ast.Name):
+        return n.target.id, n.value
+    if isinstance(n, ast.Assign) and len(n.targets) == 1 and \
+            isinstance(n.targets[0], ast.Name) and \
+            isinstance(n.value, ast.BinOp) and \
+            isinstance(n.value.op, ast.Sub) and \
+            isinstance(n.value.left, ast.Name) and \
+            n.value.left.id == n.targets[0].id:
+        return n.targets[0].id, n.value.right
+    return None
+
+
+def _collect(n):
+    """(receiver name, argument expr) of `recv.extend(arg)` / `recv += arg`"""
+    if isinstance(n, ast.Call) and isinstance(n.func, ast.Attribute) and \
+            n.func.attr == 'extend' and len(n.args) == 1 and \
+            not n.keywords and isinstance(n.func.value, ast.Name):
+        return n.func.value.id, n.args[0]
+    if isinstance(n, ast.AugAssign) and isinstance(n.op, ast.Add) and \
+            isinstance(n.target, ast.Name) and \
+            not isinstance(n.value, (ast.Constant, ast.BinOp)):
+        return n.target.id, n.value
+    return None
+
+
+def zero_tests(g, rem):
+    """[(test node id, label of the edge taken when the counter `rem` is
+    zero)] for the tests `rem > 0`, `rem == 0`, `rem <= 0`, `rem != 0`,
+    `0 < rem`, ... and the truth test `rem`"""
+    mirror = {ast.Gt: ast.Lt, ast.Lt: ast.Gt, ast.GtE: ast.LtE,
+              ast.LtE: ast.GtE, ast.Eq: ast.Eq, ast.NotEq: ast.NotEq}
+    done = []
+    for n in g.nodes:
+        if n.kind != 'test':
+            continue
+        a = n.ast
+        if isinstance(a, ast.Name) and a.id == rem:
+            done.append((n.id, 'F'))
+            continue
+        if not isinstance(a, ast.Compare) or len(a.ops) != 1:
+            continue
+        l, r, op = a.left, a.comparators[0], type(a.ops[0])
+        if isinstance(l, ast.Constant) and op in mirror:
+            l, r, op = r, l, mirror[op]
+        if isinstance(l, ast.Name) and l.id == rem and \
+                isinstance(r, ast.Constant) and r.value == 0 and \
+                not isinstance(r.value, bool):
+            lab = {ast.Gt: 'F', ast.Eq: 'T', ast.LtE: 'T',
+                   ast.NotEq: 'F'}.get(op)
+            if lab:
+                done.append((n.id, lab))
+    return done
 
 
 def r02_2(prog, rep, rid='R02.2'):
@@ -244,15 +338,15 @@ def r02_2(prog, rep, rid='R02.2'):
         f, g, smap, rem, alc, X, dec, ext, find_call = sched_info(prog, K)
         rep.saw(f)
         if alc is None:
-            rep.bad(rid, f, dec, '%s: `%s -= len(%s)` has no matching '
-                    '`.extend(%s)`: found slots are counted but not collected'
-                    % (K.name, rem, X, X), f.loc(dec))
+            rep.bad(rid, f, dec, '%s: `%s` has no matching `.extend(%s)` in '
+                    'the node loop: found slots are counted but not collected'
+                    % (K.name, short(dec, 60), X), f.loc(dec))
             continue
         nd, ne = smap[id(dec)], smap[id(ext)]
         same = set(guards(g, nd.id)) == set(guards(g, ne.id)) and \
             nd.loops == ne.loops
-        rep.check(same, rid, f, '%s: `%s -= len(%s)` and `%s.extend(%s)` are '
-                  'executed together' % (K.name, rem, X, alc, X),
+        rep.check(same, rid, f, '%s: `%s` and `%s` are executed together'
+                  % (K.name, short(dec, 50), short(ext, 50)),
                   construct='%s:paired-update' % K.name,
                   message='%s: the remaining-count decrement and the '
                   'collection of the found slots are not under the same '
@@ -261,12 +355,14 @@ def r02_2(prog, rep, rid='R02.2'):
                   history='3-rank task over two nodes: the placement returned '
                   'has a different number of slots than ranks')
         # X is the result of the search on this node
-        src = None
+        src = srcdef = None
         for n in walk(f.node):
             if isinstance(n, ast.Assign) and n.value is find_call and \
                     isinstance(n.targets[0], ast.Name):
-                src = n.targets[0].id
-        rep.check(src == X, rid, f, '%s: the list counted and collected is the '
+                src, srcdef = n.targets[0].id, smap[id(n)]
+        same_val = src == X or (srcdef is not None and
+                                origin(g, X, ne.id) == {srcdef.id})
+        rep.check(same_val, rid, f, '%s: the list counted and collected is the '
                   'result of _find_resources' % K.name,
                   construct='%s:collected-is-found' % K.name,
                   message='%s: what is collected (%s) is not the result of the '
@@ -282,7 +378,7 @@ def r02_2(prog, rep, rid='R02.2'):
                   isinstance(t, ast.Name) and t.id == alc
                   for t in n.ast.targets)]
         rr = [n for n in g.stmt_nodes() if n.id in body and n.kind == 'stmt'
-              and isinstance(n.ast, ast.Assign) and any(
+              and isinstance(n.ast, ast.Assign) and n.ast is not dec and any(
                   isinstance(t, ast.Name) and t.id == rem
                   for t in n.ast.targets)]
         ga = sorted(tuple(sorted(guards(g, n.id))) for n in ra)
@@ -299,7 +395,7 @@ def r02_2(prog, rep, rid='R02.2'):
                   'remaining count is reset (or vice versa)')
         # the reset value of rem is the request
         init = [n for n in g.stmt_nodes() if n.kind == 'stmt' and
-                isinstance(n.ast, ast.Assign) and any(
+                isinstance(n.ast, ast.Assign) and n.ast is not dec and any(
                     isinstance(t, ast.Name) and t.id == rem
                     for t in n.ast.targets)]
         vals = {unparse(n.ast.value) for n in init}
@@ -316,21 +412,7 @@ def r02_2(prog, rep, rid='R02.2'):
         if not rets:
             raise AnalysisError('UNRECOGNISED-IDIOM %s: `return %s, ..` not '
                                 'found' % (f.where, alc))
-        done = []
-        for n in g.nodes:
-            if n.kind == 'test' and isinstance(n.ast, ast.Compare) and \
-                    isinstance(n.ast.left, ast.Name) and n.ast.left.id == rem \
-                    and len(n.ast.ops) == 1 and \
-                    isinstance(n.ast.comparators[0], ast.Constant) and \
-                    n.ast.comparators[0].value == 0:
-                op = n.ast.ops[0]
-                lab = {ast.Gt: 'F', ast.Eq: 'T', ast.LtE: 'T', ast.NotEq: 'F',
-                       ast.Lt: None, ast.GtE: None}[type(op)]
-                if lab:
-                    done.append((n.id, lab))
-            elif n.kind == 'test' and isinstance(n.ast, ast.Name) and \
-                    n.ast.id == rem:
-                done.append((n.id, 'F'))
+        done = zero_tests(g, rem)
         for r in rets:
             # only tests evaluated after the loop count
             after = [(t, lab) for t, lab in done
@@ -510,16 +592,7 @@ def r02_5(prog, rep, rid='R02.5'):
             if alc not in d.expr_depends(stmt.value):
                 continue
             n = smap[id(stmt)]
-            gs = guards(g, n.id)
-            okw = False
-            for tid, lab in gs:
-                a = g.nodes[tid].ast
-                if isinstance(a, ast.Compare) and isinstance(a.left, ast.Name) \
-                        and a.left.id == rem and len(a.ops) == 1:
-                    op = a.ops[0]
-                    if (isinstance(op, ast.Gt) and lab == 'F') or \
-                            (isinstance(op, (ast.Eq, ast.LtE)) and lab == 'T'):
-                        okw = True
+            okw = bool(set(guards(g, n.id)) & set(zero_tests(g, rem)))
             rep.check(okw, rid, f, '%s: the tag history is recorded only after '
                       'the placement is complete' % K.name, construct=stmt,
                       message='%s: the colocate history is written from a '
@@ -528,6 +601,538 @@ def r02_5(prog, rep, rid='R02.5'):
                       history='a tagged task that does not fit records the '
                       'nodes of its partial search; the next task with the '
                       'tag is pinned to them')
+
+
+# ------------------------------------------------------------------------------
+# R02.9  what is subtracted from the remaining counter is the number of slots
+#        that were collected
+#
+def origin(g, name, at, depth=0):
+    """definition sites (cfg node ids) of the value the plain name `name`
+    holds at cfg node `at`; plain copies `y = x` are followed.  A name without
+    a reaching definition (parameter, global) is its own origin."""
+    defs = reaching_defs(g, name, at)
+    if not defs:
+        return {'free:' + name}
+    out = set()
+    for n, v in defs:
+        if isinstance(v, ast.Name) and depth < 6:
+            out |= origin(g, v.id, n.id, depth + 1)
+        else:
+            out.add(n.id)
+    return out
+
+
+def _hoisted(g, expr, at, depth=0):
+    """(expr', node id where it is evaluated): a plain name with exactly one
+    reaching definition `k = <expr'>` is replaced by that expression"""
+    while isinstance(expr, ast.Name) and depth < 6:
+        defs = reaching_defs(g, expr.id, at)
+        if len(defs) != 1 or defs[0][1] is None:
+            break
+        at, expr = defs[0][0].id, defs[0][1]
+        depth += 1
+    return expr, at
+
+
+def r02_9(prog, rep, rid='R02.9'):
+    rep.rule(rid, 'schedule_task: the amount subtracted from the remaining '
+             'counter is the length of exactly the list that extends the '
+             'allocation', minimum=2)
+    base, classes = sched_classes(prog)
+    for K in classes:
+        f, g, smap, rem, alc, X, dec, ext, find_call = sched_info(prog, K)
+        if alc is None:
+            continue                        # reported by R02.2
+        nd, ne = smap[id(dec)], smap[id(ext)]
+        amount = _decrement(dec)[1]
+        what = '%s: `%s` subtracts the length of the list collected by `%s`' \
+            % (K.name, short(dec, 50), short(ext, 50))
+        hist = ('3 nodes x 8 cores; a 1-rank x 6-core task occupies node 0; '
+                'then an MPI task of 4 ranks x 2 cores: node 0 (first node, '
+                'partial) is asked for 4 slots and finds 1 - if the counter '
+                'does not drop by exactly 1 the task is granted a placement '
+                'with a different number of slots than ranks')
+        e, at = _hoisted(g, amount, nd.id)
+        ox = origin(g, X, ne.id)
+        if isinstance(e, ast.Call) and dotted(e.func) == 'len' and \
+                len(e.args) == 1 and isinstance(e.args[0], ast.Name):
+            Y = e.args[0].id
+            oy = origin(g, Y, at)
+            if oy == ox:
+                # evaluated elsewhere (hoisted): the list must not change in
+                # between
+                if at != nd.id:
+                    for kind, target, node in I.stores(f.node):
+                        if kind == 'mutate' and isinstance(target, ast.Name) \
+                                and target.id in (X, Y):
+                            raise AnalysisError(
+                                'UNRECOGNISED-IDIOM %s: %s is mutated and its '
+                                'length is taken at a different place than '
+                                'the decrement' % (f.where, target.id))
+                rep.ok(rid, f, what, f.loc(dec))
+                continue
+            # another list: does it derive from the collected one (a copy)?
+            derived = False
+            for o in oy:
+                if isinstance(o, int):
+                    reads = {x.id for x in walk(g.nodes[o].ast)
+                             if isinstance(x, ast.Name) and
+                             isinstance(x.ctx, ast.Load)}
+                    if X in reads or Y == X:
+                        derived = True
+            if derived:
+                raise AnalysisError(
+                    'UNRECOGNISED-IDIOM %s: `%s` counts %s which derives '
+                    'from the collected list %s in a way the rule does not '
+                    'know' % (f.where, short(dec, 50), Y, X))
+            rep.bad(rid, f, '%s:counted-is-collected' % K.name,
+                    '%s.schedule_task: `%s` counts the list %s, but the slots '
+                    'collected for the task come from %s (`%s`): the '
+                    'remaining-rank counter and the placement diverge, the '
+                    'task is granted a different number of slots than ranks'
+                    % (K.name, short(dec, 60), Y, X, short(ext, 60)),
+                    f.loc(dec), history=hist)
+            continue
+        # not a length: an amount that does not depend on what was found is
+        # wrong whenever the node offers fewer slots than it was asked for
+        d = Deps(f.node, implicit=False)
+        dep = d.expr_depends(e) | d.expr_depends(amount)
+        found = {X, 'ret:self._find_resources'}
+        if alc in dep or found & dep:
+            raise AnalysisError(
+                'UNRECOGNISED-IDIOM %s: the amount in `%s` depends on the '
+                'found slots but is not the length of the collected list'
+                % (f.where, short(dec, 60)))
+        rep.bad(rid, f, '%s:counted-is-collected' % K.name,
+                '%s.schedule_task: `%s` subtracts `%s`, which does not depend '
+                'on what the per-node search found, while `%s` collects the '
+                'found list: when a (partial) node yields fewer slots than it '
+                'was asked for, the remaining-rank counter reaches zero with '
+                'too few slots collected and the short placement is granted'
+                % (K.name, short(dec, 60), short(e, 50), short(ext, 60)),
+                f.loc(dec), history=hist)
+
+
+# ------------------------------------------------------------------------------
+# R02.6  the per-node colocate filter and the recording of the tag history
+#        agree on which tag values count as "a tag"
+#
+# Abstract value of the tag variable (and of the names copied into it):
+#   None | '' (the empty string) | falsy (0, False, 0.0, empty container) |
+#   truthy | ? (nothing known: every test on it may go both ways)
+_TN, _TE, _TZ, _TT, _TU = 'None', "''", 'falsy', 'truthy', '?'
+_TAGS   = (_TE, _TZ, _TT)                  # values that are tags (non-None)
+_STR_OF = {_TN: _TT, _TE: _TE, _TZ: _TT, _TT: _TT, _TU: _TU}
+_SAMPLE = {_TE: "''", _TZ: '0', _TT: "'t'"}
+
+
+def _cls_const(v):
+    if v is None:
+        return _TN
+    if isinstance(v, str) and v == '':
+        return _TE
+    try:
+        return _TT if v else _TZ
+    except Exception:                                           # noqa
+        return _TU
+
+
+def _is_str(e):
+    if isinstance(e, ast.Constant):
+        return isinstance(e.value, str)
+    if isinstance(e, ast.JoinedStr):
+        return True
+    if isinstance(e, ast.Call):
+        return dotted(e.func) == 'str'
+    if isinstance(e, ast.BinOp) and isinstance(e.op, ast.Mod):
+        return _is_str(e.left)
+    if isinstance(e, ast.BinOp) and isinstance(e.op, ast.Add):
+        return _is_str(e.left) or _is_str(e.right)
+    if isinstance(e, ast.IfExp):
+        return _is_str(e.body) and _is_str(e.orelse)
+    return False
+
+
+class TagDomain:
+
+    def __init__(self, f, family):
+        self.f = f
+        self.family = family
+        self.d = Deps(f.node)
+        self.inputs = [p for p in f.params if p != 'self']
+
+    def is_input(self, e):
+        """a lookup in (a part of) what the caller handed in: the value is
+        free - any class"""
+        recv = None
+        if isinstance(e, ast.Call) and isinstance(e.func, ast.Attribute) and \
+                e.func.attr == 'get' and e.args:
+            recv = e.func.value       # (a default only adds to a free value)
+        elif isinstance(e, ast.Subscript) and isinstance(e.ctx, ast.Load):
+            recv = e.value
+        if recv is None:
+            return False
+        dep = self.d.expr_depends(recv)
+        return any(p in dep for p in self.inputs)
+
+    def ev(self, e, env):
+        """set of abstract values of expression e"""
+        if isinstance(e, ast.Constant):
+            return {_cls_const(e.value)}
+        if isinstance(e, ast.Name):
+            return {env.get(e.id, _TU)}
+        if isinstance(e, ast.Call) and dotted(e.func) == 'str' and \
+                len(e.args) == 1 and not e.keywords:
+            return {_STR_OF[c] for c in self.ev(e.args[0], env)}
+        if isinstance(e, ast.IfExp):
+            out = set()
+            t = self.truth(e.test, env)
+            if True in t:
+                out |= self.ev(e.body, env)
+            if False in t:
+                out |= self.ev(e.orelse, env)
+            return out
+        if isinstance(e, ast.BoolOp):
+            out = set()
+            for i, v in enumerate(e.values):
+                last = i == len(e.values) - 1
+                vs = self.ev(v, env)
+                if last:
+                    out |= vs
+                    break
+                go_on = False
+                for c in vs:
+                    stops = (c == _TT) if isinstance(e.op, ast.Or) else \
+                        (c in (_TN, _TE, _TZ))
+                    if c == _TU:
+                        out.add(_TU)
+                        go_on = True
+                    elif stops:
+                        out.add(c)
+                    else:
+                        go_on = True
+                if not go_on:
+                    break
+            return out
+        if isinstance(e, ast.JoinedStr):
+            if any(isinstance(v, ast.Constant) and v.value for v in e.values):
+                return {_TT}
+            return {_TU}
+        if isinstance(e, ast.BinOp) and isinstance(e.op, ast.Mod) and \
+                isinstance(e.left, ast.Constant) and \
+                isinstance(e.left.value, str):
+            rest = re.sub(r'%(\([^)]*\))?[-#0 +]*\d*(\.\d+)?[a-zA-Z]', '',
+                          e.left.value.replace('%%', 'x'))
+            return {_TT} if rest else {_TU}
+        if isinstance(e, ast.BinOp) and isinstance(e.op, ast.Add) and \
+                _is_str(e):
+            out = set()
+            for a in self.ev(e.left, env):
+                for b in self.ev(e.right, env):
+                    if _TT in (a, b):
+                        out.add(_TT)
+                    elif a == _TE and b == _TE:
+                        out.add(_TE)
+                    else:
+                        out.add(_TU)
+            return out
+        if self.is_input(e):
+            return {_TN, _TE, _TZ, _TT}
+        return {_TU}
+
+    def truth(self, e, env):
+        """set of truth values the test e may have"""
+        both = {True, False}
+        if isinstance(e, ast.UnaryOp) and isinstance(e.op, ast.Not):
+            return {not t for t in self.truth(e.operand, env)}
+        if isinstance(e, ast.BoolOp):
+            out = set()
+            is_and = isinstance(e.op, ast.And)
+            for i, v in enumerate(e.values):
+                t = self.truth(v, env)
+                last = i == len(e.values) - 1
+                if last:
+                    out |= t
+                    break
+                if is_and:
+                    if False in t:
+                        out.add(False)
+                    if True not in t:
+                        break
+                else:
+                    if True in t:
+                        out.add(True)
+                    if False not in t:
+                        break
+            return out
+        if isinstance(e, ast.Call) and dotted(e.func) == 'bool' and \
+                len(e.args) == 1 and not e.keywords:
+            return self.truth(e.args[0], env)
+        if isinstance(e, ast.Call) and dotted(e.func) == 'isinstance' and \
+                len(e.args) == 2 and isinstance(e.args[0], ast.Name) and \
+                e.args[0].id in env and unparse(e.args[1]) == 'str':
+            c = env[e.args[0].id]
+            return {_TN: {False}, _TE: {True}, _TZ: {False}}.get(c, both)
+        if isinstance(e, (ast.Name, ast.Constant)):
+            out = set()
+            for c in self.ev(e, env):
+                out |= both if c == _TU else {c == _TT}
+            return out
+        if isinstance(e, ast.Compare) and len(e.ops) == 1:
+            op, l, r = e.ops[0], e.left, e.comparators[0]
+            if isinstance(l, ast.Constant) and not isinstance(r, ast.Constant):
+                l, r = r, l
+            if isinstance(r, ast.Constant) and isinstance(l, ast.Name) and \
+                    l.id in env and \
+                    isinstance(op, (ast.Is, ast.IsNot, ast.Eq, ast.NotEq)):
+                k = _cls_const(r.value)
+                if isinstance(op, (ast.Is, ast.IsNot)) and k != _TN:
+                    return both
+                c = env[l.id]
+                if c == _TU or k == _TU:
+                    return both
+                if c != k:
+                    eq = {False}
+                elif c in (_TN, _TE):
+                    eq = {True}           # one value in the class
+                else:
+                    eq = both
+                if isinstance(op, (ast.IsNot, ast.NotEq)):
+                    eq = {not x for x in eq}
+                return eq
+        return both
+
+
+def _carriers(e):
+    """names whose abstract value flows into the value of e"""
+    if isinstance(e, ast.Name):
+        return {e.id}
+    if isinstance(e, ast.Call) and dotted(e.func) == 'str' and \
+            len(e.args) == 1:
+        return _carriers(e.args[0])
+    if isinstance(e, ast.IfExp):
+        return _carriers(e.body) | _carriers(e.orelse)
+    if isinstance(e, ast.BoolOp):
+        out = set()
+        for v in e.values:
+            out |= _carriers(v)
+        return out
+    return set()
+
+
+def tag_states(f, g, dom):
+    """forward exploration of (cfg node, abstract values of the family):
+    returns (reachable states, successor function)"""
+    fam = dom.family
+    cache = {}
+
+    def bind(env, names, cls):
+        env = dict(env)
+        for n in names:
+            if n in env:
+                env[n] = cls
+        return env
+
+    def succ(state):
+        if state in cache:
+            return cache[state]
+        nid, vals = state
+        env = dict(zip(fam, vals))
+        n = g.nodes[nid]
+        after = [env]
+        labels = None
+        a = n.ast
+        if n.kind == 'test':
+            t = dom.truth(a, env)
+            labels = {'T' if x else 'F' for x in t}
+        elif n.kind == 'stmt' and isinstance(a, (ast.Assign, ast.AnnAssign)) \
+                and getattr(a, 'value', None) is not None:
+            tg = a.targets if isinstance(a, ast.Assign) else [a.target]
+            if len(tg) == 1 and isinstance(tg[0], ast.Name):
+                if tg[0].id in env:
+                    after = [bind(env, [tg[0].id], c)
+                             for c in sorted(dom.ev(a.value, env))]
+            else:
+                names = []
+                for t in tg:
+                    names += stores_in_target(t)
+                after = [bind(env, names, _TU)]
+        elif n.kind == 'stmt' and isinstance(a, ast.AugAssign):
+            after = [bind(env, stores_in_target(a.target), _TU)]
+        elif n.kind == 'for':
+            after = [bind(env, stores_in_target(a.target), _TU)]
+        elif n.kind == 'with':
+            names = []
+            for it in a.items:
+                if it.optional_vars is not None:
+                    names += stores_in_target(it.optional_vars)
+            after = [bind(env, names, _TU)]
+        elif n.kind == 'handler' and getattr(a, 'name', None):
+            after = [bind(env, [a.name], _TU)]
+        out = set()
+        for e in g.succ[nid]:
+            if labels is not None and e.label in ('T', 'F') and \
+                    e.label not in labels:
+                continue
+            for env2 in ([env] if e.label == 'exc' else after):
+                out.add((e.dst, tuple(env2[x] for x in fam)))
+        cache[state] = out
+        return out
+
+    def closure(starts):
+        seen = set(starts)
+        todo = list(starts)
+        while todo:
+            s = todo.pop()
+            for t in succ(s):
+                if t not in seen:
+                    seen.add(t)
+                    todo.append(t)
+                    if len(seen) > 200000:
+                        raise AnalysisError('tag exploration of %s exceeds '
+                                            '200000 states' % f.where)
+        return seen
+
+    init = (g.entry.id, tuple(_TU for _ in fam))
+    return closure([init]), closure
+
+
+def colo_sites(prog, K):
+    """the colocate filter tests in the node loop and the history writes that
+    record a placement"""
+    f, g, smap, rem, alc, X, dec, ext, find_call = sched_info(prog, K)
+    F = smap[id(find_call)]
+    known = []
+    for n in g.nodes:
+        if n.kind != 'test' or not isinstance(n.ast, ast.Compare) or \
+                len(n.ast.ops) != 1:
+            continue
+        op, r = n.ast.ops[0], n.ast.comparators[0]
+        if isinstance(op, (ast.In, ast.NotIn)) and \
+                unparse(r) == 'self._colo_history' and n.loops == F.loops:
+            known.append(n)
+    d = Deps(f.node)
+    writes = []
+    for kind, target, stmt in I.stores(f.node):
+        if kind != 'assign' or not unparse(target).startswith(
+                'self._colo_history['):
+            continue
+        if alc is None or alc not in d.expr_depends(stmt.value):
+            continue
+        writes.append((smap[id(stmt)], target))
+    return f, g, F, known, writes
+
+
+def r02_6(prog, rep, rid='R02.6'):
+    rep.rule(rid, 'schedule_task: every colocate tag value which the per-node '
+             'filter treats as a tag can have its nodes recorded in the tag '
+             'history, and every value recorded is one the filter treats as a '
+             'tag (None / empty string / other falsy / truthy values of the '
+             'tag variable, followed through its normalisation)', minimum=4)
+    base, classes = sched_classes(prog)
+    for K in classes:
+        f, g, F, known, writes = colo_sites(prog, K)
+        if not known or not writes:
+            raise AnalysisError('UNRECOGNISED-IDIOM %s: colocate filter test '
+                                '(`tag in self._colo_history` in the node '
+                                'loop) or the recording history write not '
+                                'found' % f.where)
+        tags = {unparse(n.ast.left) for n in known} | \
+               {unparse(t.slice) for w, t in writes}
+        if len(tags) != 1 or not all(isinstance(n.ast.left, ast.Name)
+                                     for n in known):
+            raise AnalysisError('UNRECOGNISED-IDIOM %s: the colocate filter '
+                                'and the history write do not use one local '
+                                'name as the tag (%s)' % (f.where,
+                                                          sorted(tags)))
+        T = tags.pop()
+        for n in walk(f.node):
+            if isinstance(n, ast.NamedExpr):
+                raise AnalysisError('UNRECOGNISED-IDIOM %s: assignment '
+                                    'expression' % f.where)
+        # names copied into the tag
+        family = [T]
+        grew = True
+        while grew:
+            grew = False
+            for n in walk(f.node):
+                if isinstance(n, ast.Assign) and len(n.targets) == 1 and \
+                        isinstance(n.targets[0], ast.Name) and \
+                        n.targets[0].id in family:
+                    for c in sorted(_carriers(n.value)):
+                        if c not in family and c != 'self':
+                            family.append(c)
+                            grew = True
+        if len(family) > 4:
+            raise AnalysisError('UNRECOGNISED-IDIOM %s: the colocate tag is '
+                                'derived through more than 3 other locals'
+                                % f.where)
+        dom = TagDomain(f, family)
+        states, closure = tag_states(f, g, dom)
+        kids = {n.id for n in known}
+        wids = {w.id for w, t in writes}
+        kstates = [s for s in states if s[0] in kids]
+        wstates = [s for s in states if s[0] in wids]
+        wast = writes[0][0].ast
+        kast = known[0].ast
+        # (A) filtered as a tag => can be recorded
+        for c in _TAGS:
+            ks = [s for s in kstates if s[1][0] == c]
+            if not ks:
+                continue
+            okA = True
+            for s in ks:
+                if not any(t[0] in wids for t in closure([s])):
+                    okA = False
+            rep.check(okA, rid, f, '%s: a tag value of class %s reaches the '
+                      'filter `%s` and can reach the recording `%s`'
+                      % (K.name, c, short(kast, 40), short(wast, 40)),
+                      construct='%s:tag-guards:filtered-not-recorded:%s'
+                      % (K.name, c),
+                      message='%s.schedule_task: a colocate tag whose value '
+                      'is %s (e.g. %s) is treated as a tag by the per-node '
+                      'filter (`%s` is evaluated for it) but the guards of '
+                      '`%s` exclude it, so the nodes of the placement are '
+                      'never recorded for the tag: the test on the tag at the '
+                      'filter, at its normalisation and at the recording '
+                      'site do not agree (None-test vs truth test), and the '
+                      'next task with the same tag is not restricted to the '
+                      'nodes of the first'
+                      % (K.name, c, _SAMPLE[c], short(kast, 50),
+                         short(wast, 50)),
+                      loc=f.loc(wast),
+                      history="tags={'colocate': %s}: task A is placed on "
+                      'node 0, nothing is recorded; other tasks fill node 0 '
+                      'and move the node cursor to node 1; A completes; task '
+                      'B with the same tag is placed on node 1 instead of '
+                      'node 0' % _SAMPLE[c])
+        # (B) recorded => filtered as a tag
+        after_known = closure(kstates) if kstates else set()
+        for c in _TAGS:
+            ws = [s for s in wstates if s[1][0] == c]
+            if not ws:
+                continue
+            okB = all(s in after_known for s in ws)
+            rep.check(okB, rid, f, '%s: a tag value of class %s which is '
+                      'recorded by `%s` is one the filter `%s` is evaluated '
+                      'for' % (K.name, c, short(wast, 40), short(kast, 40)),
+                      construct='%s:tag-guards:recorded-not-filtered:%s'
+                      % (K.name, c),
+                      message='%s.schedule_task: a colocate tag whose value '
+                      'is %s (e.g. %s) has its nodes recorded in the history '
+                      '(`%s`) but the per-node filter never consults the '
+                      'history for it (`%s` is not evaluated: the guard '
+                      'around it excludes this value): a later task with the '
+                      'same tag is placed on any node'
+                      % (K.name, c, _SAMPLE[c], short(wast, 50),
+                         short(kast, 50)),
+                      loc=f.loc(kast),
+                      history="tags={'colocate': %s}: task A is placed on "
+                      'node 0 and recorded; the node cursor moves on; task B '
+                      'with the same tag skips the filter and is placed on '
+                      'node 1' % _SAMPLE[c])
+        rep.stat('tag_states', len(states))
 
 
 # ------------------------------------------------------------------------------
@@ -541,7 +1146,11 @@ def run(prog, rep, tier):
         'per-slot search arguments derive from the matching per-rank '
         'attributes, n_slots from ranks_per_node; the slot records the '
         "node's own name/index and the per-slot lfs/mem; colocate membership "
-        'guard and history writes.')
+        'guard and history writes; the remaining counter is decremented by '
+        'the length of exactly the list that extends the allocation; the '
+        'per-node colocate filter and the recording of the tag history agree '
+        'on which tag values (None / empty string / other falsy / truthy, '
+        'followed through the normalisation of the tag) count as a tag.')
     rep.undecided = ('that the indices chosen are the right ones for every '
         'occupancy; numeric adequacy of slots_per_node; R02.3 (the four '
         'per-node asserts) is information only - removing one does not yield '
@@ -550,11 +1159,19 @@ def run(prog, rep, tier):
         'scope: Continuous and ContinuousJsrun (and what they inherit)',
         'the per-slot receiver lists are fresh per slot (creation by '
         'assignment to the receiver root is recognised)',
+        'R02.6: a value looked up in the task description may be None, the '
+        'empty string, another falsy value or truthy; str() of a truthy '
+        'value and of a falsy non-string value (0, False) is non-empty; '
+        'None is not a tag; tests on the tag other than truth / None / '
+        'constant comparisons may go both ways (may-analysis: R02.6 fires '
+        'only when no path at all records / filters the value)',
     ]
     rep.attempt(r02_1, prog, rep)
     rep.attempt(r02_2, prog, rep)
     rep.attempt(r02_4, prog, rep)
     rep.attempt(r02_5, prog, rep)
+    rep.attempt(r02_6, prog, rep)
+    rep.attempt(r02_9, prog, rep)
     from .c01 import r02_8
     rep.attempt(r02_8, prog, rep)
     # R02.3 information
@@ -621,6 +1238,27 @@ MUTATIONS = [
     dict(name='R02.5 history written before completeness test', rules=('R02.5',), edits=[
         (_C, "        # if we did not find enough, there is not much we can do at this point\n        if  rem_slots > 0:\n            return None, None  # signal failure\n", ""),
         (_C, "            self._tagged_nodes.update(self._colo_history[colo_tag])\n", "            self._tagged_nodes.update(self._colo_history[colo_tag])\n\n        if  rem_slots > 0:\n            return None, None  # signal failure\n")]),
+    dict(name='R02.9 counter decremented by the request, not by what was found (seed C02-c)', rules=('R02.9',), edits=[
+        (_C, "            rem_slots -= len(new_slots)\n", "            rem_slots -= n_slots\n")]),
+    dict(name='R02.9 jsrun: counter decremented by the request', rules=('R02.9',), edits=[
+        (_J, "            rem_slots -= len(new_slots)\n", "            rem_slots -= n_slots\n")]),
+    dict(name='R02.9 counter decremented by the length of the allocation so far', rules=('R02.9',), edits=[
+        (_C, "            rem_slots -= len(new_slots)\n", "            rem_slots -= len(alc_slots)\n")]),
+    dict(name='R02.9 counter decremented by a hoisted copy of the request', rules=('R02.9',), edits=[
+        (_C, "            rem_slots -= len(new_slots)\n", "            n_found = n_slots\n            rem_slots = rem_slots - n_found\n")]),
+    dict(name='R02.9 jsrun: counter decremented by one per node', rules=('R02.9',), edits=[
+        (_J, "            rem_slots -= len(new_slots)\n", "            rem_slots -= 1\n")]),
+    dict(name='R02.6 tag normalised and recorded by truth, filtered by None-test (seed C02-d)', rules=('R02.6',), edits=[
+        (_C, "        if colo_tag is not None:\n            colo_tag = str(colo_tag)\n", "        if colo_tag:\n            colo_tag = str(colo_tag)\n"),
+        (_C, "        if colo_tag is not None and colo_tag != str(partition_id):", "        if colo_tag and colo_tag != str(partition_id):")]),
+    dict(name='R02.6 jsrun: same, normalisation as conditional expression, record guard as early pass', rules=('R02.6',), edits=[
+        (_J, "        if colo_tag is not None:\n            colo_tag = str(colo_tag)\n", "        colo_tag = str(colo_tag) if colo_tag else colo_tag\n"),
+        (_J, "        if colo_tag is not None and colo_tag != str(partition_id):\n            self._colo_history[colo_tag] = [slot['node_index']\n                                            for slot in alc_slots]\n            self._tagged_nodes.update(self._colo_history[colo_tag])\n",
+             "        if not colo_tag or colo_tag == str(partition_id):\n            pass\n        else:\n            self._colo_history[colo_tag] = [slot['node_index']\n                                            for slot in alc_slots]\n            self._tagged_nodes.update(self._colo_history[colo_tag])\n")]),
+    dict(name='R02.6 only the recording is by truth: the empty-string tag is filtered but never recorded', rules=('R02.6',), edits=[
+        (_C, "        if colo_tag is not None and colo_tag != str(partition_id):", "        if colo_tag and colo_tag != str(partition_id):")]),
+    dict(name='R02.6 only the filter is by truth: falsy tags are recorded but never looked up', rules=('R02.6',), edits=[
+        (_C, "            if colo_tag is not None:\n                if colo_tag in self._colo_history:", "            if colo_tag:\n                if colo_tag in self._colo_history:")]),
 ]
 
 SILENT = [
@@ -640,4 +1278,24 @@ SILENT = [
         (_J, "        rem_slots = req_slots\n\n        # start the search", "        rem_slots = req_slots\n        todo = rem_slots\n\n        # start the search")]),
     dict(name='asserts on per-node limits removed (R02.3 is information only)', edits=[
         (_C, "        assert lfs_per_slot   <= lfs_per_node, \\\n               'too much lfs     per proc %s' % lfs_per_slot\n", "")]),
+    dict(name='length of the found list hoisted into a local', edits=[
+        (_C, "            rem_slots -= len(new_slots)\n", "            n_found = len(new_slots)\n            rem_slots -= n_found\n")]),
+    dict(name='found list counted through an alias', edits=[
+        (_C, "            rem_slots -= len(new_slots)\n", "            found = new_slots\n            rem_slots -= len(found)\n")]),
+    dict(name='collection by += and decrement spelled as rem = rem - n', edits=[
+        (_J, "            rem_slots -= len(new_slots)\n            alc_slots.extend(new_slots)\n", "            alc_slots += new_slots\n            rem_slots = rem_slots - len(new_slots)\n")]),
+    dict(name='only the tag normalisation is by truth (key 0 is used consistently)', edits=[
+        (_C, "        if colo_tag is not None:\n            colo_tag = str(colo_tag)\n", "        if colo_tag:\n            colo_tag = str(colo_tag)\n")]),
+    dict(name='tag normalisation as conditional expression', edits=[
+        (_C, "        if colo_tag is not None:\n            colo_tag = str(colo_tag)\n", "        colo_tag = None if colo_tag is None else str(colo_tag)\n")]),
+    dict(name='tag read into another local and normalised from there', edits=[
+        (_J, "        colo_tag = td['tags'].get('colocate')\n\n        if colo_tag is not None:\n            colo_tag = str(colo_tag)\n", "        raw_tag  = td['tags'].get('colocate')\n        colo_tag = None\n\n        if raw_tag is not None:\n            colo_tag = str(raw_tag)\n")]),
+    dict(name='record guard as early pass with negated tests', edits=[
+        (_C, "        if colo_tag is not None and colo_tag != str(partition_id):\n            self._colo_history[colo_tag] = [slot['node_index']\n                                            for slot in alc_slots]\n            self._tagged_nodes.update(self._colo_history[colo_tag])\n",
+             "        if colo_tag is None or colo_tag == str(partition_id):\n            pass\n        else:\n            self._colo_history[colo_tag] = [slot['node_index']\n                                            for slot in alc_slots]\n            self._tagged_nodes.update(self._colo_history[colo_tag])\n")]),
+    dict(name='record guard nested, None-test hoisted into a flag', edits=[
+        (_J, "        if colo_tag is not None and colo_tag != str(partition_id):\n            self._colo_history[colo_tag] = [slot['node_index']\n                                            for slot in alc_slots]\n            self._tagged_nodes.update(self._colo_history[colo_tag])\n",
+             "        tagged = colo_tag is not None\n        if tagged:\n            if colo_tag != str(partition_id):\n                self._colo_history[colo_tag] = [slot['node_index']\n                                                for slot in alc_slots]\n                self._tagged_nodes.update(self._colo_history[colo_tag])\n")]),
+    dict(name='filter guard spelled `not (tag is None)`', edits=[
+        (_J, "            if colo_tag is not None:\n                if colo_tag in self._colo_history:", "            if not (colo_tag is None):\n                if colo_tag in self._colo_history:")]),
 ]
